@@ -7,7 +7,7 @@ import itertools
 
 from harness import codes as K
 from harness.core import Stream
-from harness.util import guarded
+from harness.util import guarded, stack
 from harness.props.c02 import cstr, coords_str, op_str, ops_str
 
 NAMES = ['XZZX', 'XY', 'XZZY']          # last one: not a deformation -> ValueError
@@ -88,6 +88,14 @@ def lattice_streams(ctx, cls, salt):
             s.add(f'{pre} k', guarded(lambda: str(code.k)), {'code': label, 'what': 'k'}, tag=tag)
             s.add(f'{pre} logx', guarded(lambda: ops_str(code.get_logicals_x())), {'code': label, 'what': 'get_logicals_x'}, tag=tag)
             s.add(f'{pre} logz', guarded(lambda: ops_str(code.get_logicals_z())), {'code': label, 'what': 'get_logicals_z'}, tag=tag)
+            # end to end: the matrices of the implementation against the generic code model applied
+            # to the lattice model (the objects the all-sizes theorem `valid_code` speaks about)
+            s.add(f'{pre} hmat', guarded(lambda: stack(K.dense(code.stabilizer_matrix)) if code.n_stabilizers else '_'),
+                  {'code': label, 'what': 'stabilizer_matrix'}, tag='matrix')
+            s.add(f'{pre} lxmat', guarded(lambda: stack(K.dense(code.logicals_x))),
+                  {'code': label, 'what': 'logicals_x'}, tag='matrix')
+            s.add(f'{pre} lzmat', guarded(lambda: stack(K.dense(code.logicals_z))),
+                  {'code': label, 'what': 'logicals_z'}, tag='matrix')
             extra = extra_locations(code, size) if not big else []
             for loc in ss + extra:
                 s.add(f'{pre} stab {cstr(loc)}', guarded(lambda: op_str(code.get_stabilizer(loc))),
